@@ -27,7 +27,7 @@ FPC = [('lang', 'en'), ('nth-child', '2n+1'), ('nth-child', 'odd'), ('nth-of-typ
 MEDIA = ['all', 'braille', 'embossed', 'handheld', 'print', 'projection', 'screen', 'speech', 'tty', 'tv']
 MARGINS = ['@top-left', '@top-center', '@bottom-right', '@left-middle']
 # letter case of ':not(' is varied only once the selector regrouping normalises it (finding C16-not-case)
-CASE_OF_NOT = False
+CASE_OF_NOT = True
 STRCH = list('abc xyz019;{}()/*@#.,:-_%!') + ["'", '"', 'ä', '中', '\n']
 
 
